@@ -38,7 +38,9 @@ def history(ctx, nops):
             prog = progs[live[ident]][0]
             env = gen.gen_env(prog, rng)
             for s in prog.splitters or []:
-                if rng.random() < 0.5:
+                # (fields that also occur in conditions keep their type-compatible value: the model's `in` has no
+                # object identity, so a NaN compared with a tuple containing the same field is outside the model)
+                if rng.random() < 0.5 and s not in prog.cond_fields():
                     env[s] = gen.rand_value("any", rng)
             ops.append(["call", ident, common.enc_env(env)])
             if rng.random() < 0.3:
